@@ -177,7 +177,11 @@ fn run_case(rec: &mut Recorder, sched: &Schedule, label: &str) {
 fn guarded(rec: &mut Recorder, sched: &Schedule, label: &str, case: usize) {
     match vh::catch(std::panic::AssertUnwindSafe(|| run_case(rec, sched, label))) {
         Ok(()) => {}
-        Err(p) => rec.panics.push(format!("case {case}: {p}")),
+        Err(p) => {
+            // keep the request lines of the case: the panic is replayable
+            rec.oracle_fail(format!("case {case}: panic in the real code: {p}"));
+            rec.panics.push(format!("case {case}: {p}"));
+        }
     }
 }
 
